@@ -882,6 +882,11 @@ class Interp:
             lhs, rhs = st[:eq], st[eq + 3:-1]
             f = self.c_rvalue(rhs, fn)
             setter = self.c_place_set(parse_place(lhs))
+            ml = re.match(r'^_(\d+)$', lhs.strip())
+            if rhs.startswith('discriminant(') and ml and fn.local_tys.get(int(ml.group(1))) in INT_BITS and fn.local_tys.get(int(ml.group(1))) != 'isize':
+                # the discriminant has the width of the enum's tag type (Ordering: i8, printed as 255 in switch targets)
+                dty = fn.local_tys[int(ml.group(1))]; f0 = f
+                f = lambda ctx, fr: self.cast_int(f0(ctx, fr), dty)
             def asg(ctx, fr):
                 setter(ctx, fr, f(ctx, fr))
             return asg
